@@ -14,6 +14,8 @@ pub enum AnyModel<T: Sc> {
     Hand(HandModel<T>),
     Const(ConstModel<T>),
     Dyn(Box<dyn SeparableNonlinearModel<ScalarType = T, Error = HErr> + Send + Sync>),
+    /// a row-scaling / failing wrapper around another harness model (clonable when the inner model is)
+    Row(Box<crate::twins::RowModel<T>>),
 }
 /// `FitStatistics<Model>: Clone` carries the bound `Model: Clone` although no model is stored in it;
 /// the harness' model enum satisfies the bound (only the hand-written variants can really be cloned)
@@ -22,7 +24,9 @@ impl<T: Sc> Clone for AnyModel<T> {
         match self {
             AnyModel::Hand(m) => AnyModel::Hand(m.clone()),
             AnyModel::Const(m) => AnyModel::Const(m.clone()),
-            _ => panic!("this harness model cannot be cloned"),
+            AnyModel::Row(m) => AnyModel::Row(Box::new((**m).clone())),
+            AnyModel::Built(_) => panic!("this harness model cannot be cloned (builder-made)"),
+            AnyModel::Dyn(_) => panic!("this harness model cannot be cloned (boxed)"),
         }
     }
 }
@@ -35,6 +39,7 @@ impl<T: Sc> SeparableNonlinearModel for AnyModel<T> {
             AnyModel::Built(m) => m.parameter_count(),
             AnyModel::Hand(m) => m.parameter_count(),
             AnyModel::Const(m) => m.parameter_count(),
+            AnyModel::Row(m) => m.parameter_count(),
             AnyModel::Dyn(m) => m.parameter_count(),
         }
     }
@@ -43,6 +48,7 @@ impl<T: Sc> SeparableNonlinearModel for AnyModel<T> {
             AnyModel::Built(m) => m.base_function_count(),
             AnyModel::Hand(m) => m.base_function_count(),
             AnyModel::Const(m) => m.base_function_count(),
+            AnyModel::Row(m) => m.base_function_count(),
             AnyModel::Dyn(m) => m.base_function_count(),
         }
     }
@@ -51,6 +57,7 @@ impl<T: Sc> SeparableNonlinearModel for AnyModel<T> {
             AnyModel::Built(m) => m.output_len(),
             AnyModel::Hand(m) => m.output_len(),
             AnyModel::Const(m) => m.output_len(),
+            AnyModel::Row(m) => m.output_len(),
             AnyModel::Dyn(m) => m.output_len(),
         }
     }
@@ -59,6 +66,7 @@ impl<T: Sc> SeparableNonlinearModel for AnyModel<T> {
             AnyModel::Built(m) => m.set_params(p).map_err(|e| HErr(e.to_string())),
             AnyModel::Hand(m) => m.set_params(p),
             AnyModel::Const(m) => m.set_params(p),
+            AnyModel::Row(m) => m.set_params(p),
             AnyModel::Dyn(m) => m.set_params(p),
         }
     }
@@ -67,6 +75,7 @@ impl<T: Sc> SeparableNonlinearModel for AnyModel<T> {
             AnyModel::Built(m) => m.params(),
             AnyModel::Hand(m) => m.params(),
             AnyModel::Const(m) => m.params(),
+            AnyModel::Row(m) => m.params(),
             AnyModel::Dyn(m) => m.params(),
         }
     }
@@ -75,6 +84,7 @@ impl<T: Sc> SeparableNonlinearModel for AnyModel<T> {
             AnyModel::Built(m) => m.eval().map_err(|e| HErr(e.to_string())),
             AnyModel::Hand(m) => m.eval(),
             AnyModel::Const(m) => m.eval(),
+            AnyModel::Row(m) => m.eval(),
             AnyModel::Dyn(m) => m.eval(),
         }
     }
@@ -83,6 +93,7 @@ impl<T: Sc> SeparableNonlinearModel for AnyModel<T> {
             AnyModel::Built(m) => m.eval_partial_deriv(k).map_err(|e| HErr(e.to_string())),
             AnyModel::Hand(m) => m.eval_partial_deriv(k),
             AnyModel::Const(m) => m.eval_partial_deriv(k),
+            AnyModel::Row(m) => m.eval_partial_deriv(k),
             AnyModel::Dyn(m) => m.eval_partial_deriv(k),
         }
     }
@@ -281,7 +292,12 @@ macro_rules! impl_dynp {
             fn try_clone(&self) -> Option<Box<dyn DynP<T>>> {
                 match guarded(|| self.clone()) {
                     Ok(p) => Some(Box::new(p)),
-                    Err(_) => None,
+                    Err(m) => {
+                        if std::env::var("VP_DEBUG").is_ok() {
+                            eprintln!("clone failed: {}", m);
+                        }
+                        None
+                    }
                 }
             }
         }
